@@ -6,10 +6,12 @@ import OtelVerif.Model.LogRecord
     procs : string over {s,b} (simple / batch), 1–8;  res : hex tag of the provider's resource
     scope : <namehex>/<versionhex>/<schemahex> of the enabled logger (name not empty)
     op    : push <t> <tid>/<sid>/<fl> | pushc <t> <tid>/<sid>/<fl> | pop <t>          (thread t in 0..2)
+          | pushn <t> | pushnc <t> | pushx <t>     (a context whose span entry is a null Span / a null SpanContext / not a span)
           | create <t> <e|d> <rid> | set <rid> <arg> | emit <t> <e|d> <new|new:via|null|rid> [<arg> [<arg>]]
           | scribble <buf> | free <buf> | flush
     arg   : sev:<0..255> | eid:<int64> | eid:<int64>:<namehex> | ctx:<tid>/<sid>/<fl> | sid:<16hex> | tid:<32hex> | fl:<2hex>
           | ts:<int64> | tp:<int64> | attrs#<buf>/<attrs> | attrsb#<buf>/<attrs>
+          | attrss#<buf>/<attrs> | attrsi#<buf>/<attrs> | attrsw#<buf>/<attrs>   (MakeAttributes of a span / a braced list / a container)
           | body#<buf>/<value> | bodysv#<buf>/s:<hex> | bodycs#<buf>/c:<hex> | bodystd#<buf>/s:<hex>
   Every `<buf>` may occur once per line.  After the last op the provider is flushed.
 Output: `p0:<kind>:n=<OnEmit calls>:x=[[<record>;…];…] | p1:…`, or `CRASH asan:heap-use-after-free` when an exporter
@@ -43,7 +45,7 @@ def parseArg (tok : String) : Option Arg :=
   if tok.contains '#' then
     match splitBufArg tok with
     | some (kind, b, payload) =>
-      if kind = "attrs" ∨ kind = "attrsb" then (parseAttrs payload).map (Arg.attributes b)
+      if kind = "attrs" ∨ kind = "attrsb" ∨ kind = "attrss" ∨ kind = "attrsi" ∨ kind = "attrsw" then (parseAttrs payload).map (Arg.attributes b)
       else if kind = "body" then (parseValue payload).map (Arg.body b)
       else if kind = "bodysv" ∨ kind = "bodystd" then
         match parseValue payload with
@@ -75,6 +77,11 @@ def parseEnabled (s : String) : Option Bool := if s = "e" then some true else if
 def parseLogOp : List String → Option Op
   | ["push", t, sp] => do pure (.push (← parseThread t) (← parseIdentity sp))
   | ["pushc", t, sp] => do pure (.push (← parseThread t) (← parseIdentity sp))
+  -- the topmost context's span entry carries no span: `CreateLogRecord` copies nothing, the ids read as zeros - the same
+  -- observation as an active span whose ids are all zero
+  | ["pushn", t] => do pure (.push (← parseThread t) zeroIdentity)
+  | ["pushnc", t] => do pure (.push (← parseThread t) zeroIdentity)
+  | ["pushx", t] => do pure (.push (← parseThread t) zeroIdentity)
   | ["pop", t] => do pure (.pop (← parseThread t))
   | ["create", t, e, r] => do pure (.create (← parseThread t) (← parseEnabled e) (← parseRid r))
   | ["set", r, a] => do pure (.set (← parseRid r) (← parseArg a))
